@@ -88,4 +88,6 @@ macro "pre_simp" "[" ts:simpLemma,* "]" : tactic =>
       dRef, dLen, dStr, memCopy, endLife, setEmpty, release, setVar, atomicDec, deleteData, content, putFront, $ts,*])
 
 
+theorem dec_beq0 (n : Nat) : decide (n = 0) = (n == 0) := by cases n <;> simp
+
 end Nstd.Str
